@@ -329,4 +329,21 @@ MUTATIONS += [
     # ---- R2e const-guard
     dict(id="r2e-const-guard-softmax-kind", patch="seeded/C03b/patch.diff", expect={"C03": ["R2e:cirkit.symbolic.operators.integrate_categorical_layer:const-guard"]}),
     dict(id="q-r2e-const-guard-axis-checked", quiet=True, edits=[(OPS, "    LogParameter,\n    OuterProductParameter,", "    LogParameter,\n    LogSoftmaxParameter,\n    OuterProductParameter,"), (OPS, "    if sl.logits is None:\n        log_partition = Parameter.from_input(ConstantParameter(sl.num_output_units, value=0.0))\n    else:\n        reduce_lse", "    if sl.logits is None or (\n        isinstance(sl.logits.output, LogSoftmaxParameter) and sl.logits.output.axis in (1, -1)\n    ):\n        log_partition = Parameter.from_input(ConstantParameter(sl.num_output_units, value=0.0))\n    else:\n        reduce_lse")], expect={}),
+    # ---- R5d exponent ramp
+    dict(id="r5d-hoisted-ramp-loop-counter", patch="seeded/C05b/patch.diff", expect={"C05": ["R5d:"], "C14": ["R5d:"]}),
+    dict(id="r5d-hoisted-ramp-negative-slice", patch="seeded/C14a/patch.diff", expect={"C05": ["R5d:"], "C14": ["R5d:"]}),
+    dict(id="r5d-ramp-from-zero", file=TNODES, old="        arange = torch.arange(1, degp1).to(x)  # shape (deg,).", new="        arange = torch.arange(0, degp1 - 1).to(x)  # shape (deg,).", expect={"C05": ["R5d:"], "C14": ["R5d:"]}),
+    dict(id="q-r5d-hoisted-ramp-prefix", quiet=True, file=TNODES, old="""        if x.shape[-1] <= self.order:
+            return torch.zeros_like(x[..., :1])  # shape (F, K, 1).
+
+        for _ in range(self.order):
+            x = self._diff_once(x)
+""", new="""        if x.shape[-1] <= self.order:
+            return torch.zeros_like(x[..., :1])  # shape (F, K, 1).
+
+        ramp = torch.arange(1, x.shape[-1]).to(x)
+        for _ in range(self.order):
+            x = x[..., 1:] * ramp[: x.shape[-1] - 1]
+""", expect={}),
+    dict(id="q-r5d-ramp-sliced-from-iota", quiet=True, file=TNODES, old="        arange = torch.arange(1, degp1).to(x)  # shape (deg,).", new="        arange = torch.arange(degp1)[1:].to(x)  # shape (deg,).", expect={}),
 ]
